@@ -278,6 +278,35 @@ func TestC35(t *testing.T) {
 		ms := append([]byte(nil), orig.MasterSecret()...)
 		f := tls.MakeClientSessionState(freshTicket, orig.Vers(), orig.CipherSuite(), ms, orig.ServerCertificates(), orig.VerifiedChains())
 		f.SetEMS(orig.EMS())
+		if i%2 == 1 {
+			// the other documented way: a zero ClientSessionState filled in through its
+			// setters, in an order the PRNG chooses
+			z := &tls.ClientSessionState{}
+			setters := []func(){
+				func() { z.SetSessionTicket(freshTicket) },
+				func() { z.SetVers(orig.Vers()) },
+				func() { z.SetCipherSuite(orig.CipherSuite()) },
+				func() { z.SetMasterSecret(ms) },
+				func() { z.SetServerCertificates(orig.ServerCertificates()) },
+				func() { z.SetVerifiedChains(orig.VerifiedChains()) },
+				func() { z.SetEMS(orig.EMS()) },
+			}
+			panicked, pv := recoverPanic(func() {
+				first := (i / 2) % len(setters) // every setter gets to be the first call on the zero value
+				setters[first]()
+				for _, k := range rg.Perm(len(setters)) {
+					if k != first {
+						setters[k]()
+					}
+				}
+			})
+			if panicked {
+				r.Violation(map[string]string{"kind": "forging_through_setters_panicked"}, fmt.Sprintf("filling a zero ClientSessionState through its setters panicked: %v", pv), map[string]any{"case": i})
+				continue
+			}
+			f = z
+			r.Count("forged_through_setters", 1)
+		}
 		cache2 := newMapCache()
 		cache2.Put("example.test", f)
 		ccfg2 := peer.ClientConfig("example.test")
@@ -395,7 +424,25 @@ func TestC35(t *testing.T) {
 			}
 			first := &cfgModel{cfg: &tls.Config{Time: peer.FixedTime}}
 			first.keys = newKeys()
-			first.cfg.SetSessionTicketKeys(first.keys)
+			var trace []string
+			// the deprecated Config.SessionTicketKey field: on its own it is the one key in
+			// force; explicit keys (SetSessionTicketKeys), set before or later, replace it
+			switch hi % 3 {
+			case 1:
+				rg.Read(first.cfg.SessionTicketKey[:])
+				first.cfg.SessionTicketKey[0] |= 1
+				first.cfg.SetSessionTicketKeys(first.keys)
+				trace = append(trace, "cfg0.SessionTicketKey set, then cfg0.SetSessionTicketKeys")
+				r.Count("clone_histories_with_legacy_key_field", 1)
+			case 2:
+				rg.Read(first.cfg.SessionTicketKey[:])
+				first.cfg.SessionTicketKey[0] |= 1
+				first.keys = [][32]byte{first.cfg.SessionTicketKey}
+				trace = append(trace, "cfg0.SessionTicketKey set (no explicit keys yet)")
+				r.Count("clone_histories_with_legacy_key_field", 1)
+			default:
+				first.cfg.SetSessionTicketKeys(first.keys)
+			}
 			cfgs := []*cfgModel{first}
 			type sealedT struct {
 				ticket []byte
@@ -403,7 +450,6 @@ func TestC35(t *testing.T) {
 				want   []byte
 			}
 			var tickets []sealedT
-			var trace []string
 			for step := 0; step < 4+rg.Intn(10); step++ {
 				ci := rg.Intn(len(cfgs))
 				c := cfgs[ci]
